@@ -4,8 +4,9 @@
   Array/Deque/Tuple (homogeneous or positional without surplus elements), nested Structure classes
   (instances of exactly the declared class, attributes in constructor order, every set attribute
   not None and itself in the fragment, every unset field optional without a default) and
-  `Optional[X]` (`AnyOf[NoneField, X]`) holding a value, at any nesting depth.
-  StructureReference, Set / Map / untyped collections / Anything / OneOf / AllOf / NotField /
+  `Optional[X]` (`AnyOf[NoneField, X]`) holding a value, mutable Set, Map with String keys, at any
+  nesting depth.
+  StructureReference, ImmutableSet, Map with other keys, untyped collections / Anything / OneOf / AllOf / NotField /
   wider AnyOf are outside this predicate: for them the round trip is decided by the correspondence
   harness (the model mirrors their code paths); the field-level theorems are therefore `_partial`.
 -/
@@ -20,6 +21,17 @@ def jsonScalar : PyVal → Bool
 def numJson : PyVal → Bool
   | .int _ | .float _ | .bool _ => true
   | _ => false
+
+/-- an unconstrained-type String key field (its constraints are checked by `conforms`) -/
+def isStringDecl : FieldDecl → Bool
+  | .string _ _ _ => true
+  | _ => false
+
+/-- all keys are strings and pairwise different -/
+def strKeysDistinct : List (PyVal × PyVal) → Bool
+  | [] => true
+  | (.str k, _) :: rest => !(rest.any fun kv => match kv.1 with | .str k' => k == k' | _ => false) && strKeysDistinct rest
+  | _ :: _ => false
 
 def isNoneDecl : FieldDecl → Bool
   | .noneF => true
@@ -52,6 +64,18 @@ def inFrag (O : Oracles) : FieldDecl → PyVal → Bool
               && canonAttrs O c defaults fields attrs
           | _ => false)
   | .anyOf fs, v => inFragOpt O fs v
+  /- a (mutable) Set: the stored elements are hashable and pairwise distinct, as in every real set
+     (an ImmutableSet stores a frozenset, which deserializes to a set first and is frozen by the
+     constructor: equal, but not identical in the model) -/
+  | .setOf imm f _, v =>
+    !imm && (match v with
+      | .set fr xs => !fr && PyVal.pyNodup xs && !(xs.any unhashable) && xs.all (inFrag O f)
+      | _ => false)
+  /- a Map with String keys: distinct string keys (as in every real dict), values in the fragment -/
+  | .mapOf kf vf _, v =>
+    isStringDecl kf && (match v with
+      | .dict kvs => strKeysDistinct kvs && kvs.all (fun kv => inFrag O vf kv.2)
+      | _ => false)
   | _, _ => false
 termination_by structural f _ => f
 
